@@ -175,3 +175,13 @@ package oidc
 //@   requires valid(jws)
 //@   modifies nothing
 //@   ensures header: result0 == jwsKid(jws) && result1 == jwsAlg(jws)
+
+// ---- C04 / C17: PKCE ----
+//@ func oidc.NewSHACodeChallenge
+//@   pure
+//@   ensures s256: result == hashString(256, code, false)
+// challengeMatches is written from RFC 7636: the verifier (hashed for S256) equals the stored challenge.
+//@ spec func challengeMatches(c *CodeChallenge, verifier string) bool = c != nil && ite(c.Method == CodeChallengeMethodS256, hashString(256, verifier, false), verifier) == c.Challenge
+//@ func oidc.VerifyCodeChallenge
+//@   modifies nothing
+//@   ensures iff: result <==> challengeMatches(c, codeVerifier)
